@@ -100,14 +100,63 @@ def stdIsXs (t : Tag) : Bool := stdDictV t == some .xs
 
 def isDigit (b : Nat) : Bool := 0x30 ≤ b && b ≤ 0x39
 
-/-- the character-class checks `validate_da` / `validate_tm` / `validate_dt` that precede the date and
-time parsers in the `Interpreted` strategy (note: `validate_da` has no backslash, so a multi-valued DA is
-rejected there). The parsers proper (C11/C12) are assumed to accept what the generators produce. -/
+/-- `char::is_whitespace` on the characters a default-repertoire (ISO 8859-1) decode can produce -/
+def isWs (b : Nat) : Bool := (0x09 ≤ b && b ≤ 0x0D) || b == 0x20 || b == 0x85 || b == 0xA0
+
+/-- `str::trim` -/
+def trimWs (bs : Bytes) : Bytes := ((bs.dropWhile isWs).reverse.dropWhile isWs).reverse
+
+def digitsVal (bs : Bytes) : Nat := bs.foldl (fun acc b => acc * 10 + (b - 0x30)) 0
+
+/-- accept set of `str::parse::<i32>`: optional sign, at least one digit, value in range -/
+def parsesI32 (bs : Bytes) : Bool :=
+  match bs with
+  | 0x2D :: ds => !ds.isEmpty && ds.all isDigit && digitsVal ds ≤ 2147483648
+  | 0x2B :: ds => !ds.isEmpty && ds.all isDigit && digitsVal ds ≤ 2147483647
+  | ds => !ds.isEmpty && ds.all isDigit && digitsVal ds ≤ 2147483647
+
+def lower (b : Nat) : Nat := if 0x41 ≤ b && b ≤ 0x5A then b + 32 else b
+
+/-- accept set of `str::parse::<f64>`: `[+-]? (inf | infinity | nan | digits [. digits*] | . digits+) ([eE][+-]?digits+)?` -/
+def parsesF64 (bs : Bytes) : Bool :=
+  let body := match bs with
+    | 0x2D :: r => r
+    | 0x2B :: r => r
+    | r => r
+  let lw := body.map lower
+  if lw == "inf".toUTF8.toList.map (·.toNat) || lw == "infinity".toUTF8.toList.map (·.toNat)
+      || lw == "nan".toUTF8.toList.map (·.toNat) then true
+  else
+    let intPart := body.takeWhile isDigit
+    let r1 := body.dropWhile isDigit
+    let (fracPart, r2, hasDot) := match r1 with
+      | 0x2E :: r => (r.takeWhile isDigit, r.dropWhile isDigit, true)
+      | r => ([], r, false)
+    let mantOk := !intPart.isEmpty || (hasDot && !fracPart.isEmpty)
+    let expOk := match r2 with
+      | [] => true
+      | e :: r =>
+        if e == 0x65 || e == 0x45 then
+          let ds := match r with
+            | 0x2D :: d => d
+            | 0x2B :: d => d
+            | d => d
+          !ds.isEmpty && ds.all isDigit
+        else false
+    mantOk && expOk
+
+/-- What the `Interpreted` strategy accepts, as far as the correspondence needs it: the character-class
+checks `validate_da` / `validate_tm` / `validate_dt` that precede the date and time parsers (note:
+`validate_da` has no backslash, so a multi-valued DA is rejected there) — the date/time parsers proper
+(C12) are assumed to accept what the generators produce — and the accept sets of Rust's `i32` / `f64`
+parsers on every trimmed component for IS / DS. -/
 def stdParseOk (vr : VR) (buf : Bytes) : Bool :=
   match vr with
   | .DA => buf.all isDigit
   | .TM => buf.all fun b => isDigit b || b == 0x5C || b == 0x2E || b == 0x2D || b == 0x20
   | .DT => buf.all fun b => isDigit b || b == 0x2E || b == 0x2D || b == 0x2B || b == 0x20 || b == 0x5C
+  | .IS => (splitBs buf).all fun p => parsesI32 (trimWs p)
+  | .DS => (splitBs buf).all fun p => parsesF64 (trimWs p)
   | _ => true
 
 def modeOf (s : String) : Option VMode :=
